@@ -1629,7 +1629,7 @@ def run(chk):
             chk.violation(r_fi, "%s@%s[%s]" % (f["q"], arr[:30], idx[:30]), "%s: `%s` holds one entry per %s cell but is read at `%s`, a%s index: with inactive cells in the grid this is the entry of another cell (or beyond the end of the array)" % (f["q"], arr, ka, idx, "n active" if ki == "active" else " global"), f["file"], line)
 
     # ---- C05.ctrlphase: the active control of an injector, read back
-    r_cp = chk.rule("C05.ctrlphase", "LoadRestart.cpp injectorControlMode: the stored active-control code <P>Rate comes back as RATE exactly for an injector of phase P (OilRate with oil_injector, WatRate with water_injector, GasRate with gas_injector) and as undefined otherwise; ResVRate, THP, BHP, Group come back as RESV, THP, BHP, GRUP - a rate-controlled injector of one phase must not lose its control because the test names another phase", floor=7)
+    r_cp = chk.rule("C05.ctrlphase", "LoadRestart.cpp injectorControlMode: the stored active-control code <P>Rate comes back as RATE exactly for an injector of phase P (OilRate with oil_injector, WatRate with water_injector, GasRate with gas_injector) and as undefined otherwise; ResVRate, THP, BHP, Group come back as RESV, THP, BHP, GRUP - a rate-controlled injector of one phase must not lose its control because the test names another phase; producerControlMode maps OilRate/WatRate/GasRate/LiqRate/ResVRate/THP/BHP/CombRate/Group to ORAT/WRAT/GRAT/LRAT/RESV/THP/BHP/CRAT/GRUP", floor=16)
     from verif import fallthrough as _ft5
     icm = [f for f in fx.fns if f["n"] == "injectorControlMode" and f.get("body") and f["file"].endswith("LoadRestart.cpp")]
     if len(icm) != 1:
@@ -1655,6 +1655,23 @@ def run(chk):
                 chk.instance(r_cp, nm, sample=dict(code=nm, restored=txt[:80]))
                 if not re.search(r"return [\w:]*::%s;" % WANT_PL[nm], txt):
                     chk.violation(r_cp, nm, "injectorControlMode: the active control %s is restored by `%s`; it must come back as %s" % (nm, txt[:120], WANT_PL[nm]), icm["file"], (sts[0].get("l") if sts else icm["l"]))
+    # the producer side: a plain code -> mode table
+    pcm = [f for f in fx.fns if f["n"] == "producerControlMode" and f.get("body") and f["file"].endswith("LoadRestart.cpp")]
+    if len(pcm) != 1:
+        raise core.AnalysisBroken("LoadRestart.cpp: producerControlMode: %d definitions" % len(pcm))
+    pcm = pcm[0]
+    WANT_PR = {"OilRate": "ORAT", "WatRate": "WRAT", "GasRate": "GRAT", "LiqRate": "LRAT", "ResVRate": "RESV", "THP": "THP", "BHP": "BHP", "CombRate": "CRAT", "Group": "GRUP"}
+    psw = [n for n in walk(pcm["body"]) if n.get("k") == "Switch"]
+    got_pr = {}
+    for labels, sts in (_ft5.sections(psw[0]) if len(psw) == 1 else []):
+        txt = " ".join(show(x) for x in sts)
+        m_ = re.search(r"return [\w:]*::(\w+);", txt)
+        for lab in labels:
+            got_pr[lab.split("::")[-1]] = m_.group(1) if m_ else None
+    for code_, mode_ in WANT_PR.items():
+        chk.instance(r_cp, "prod:" + code_, sample=dict(code=code_, restored=got_pr.get(code_)))
+        if got_pr.get(code_) != mode_:
+            chk.violation(r_cp, "prod:" + code_, "producerControlMode restores the active control %s as %s; it must come back as %s" % (code_, got_pr.get(code_), mode_), pcm["file"], pcm["l"])
     miss_cp = [k_ for k_ in list(WANT_CP) + list(WANT_PL) if k_ not in seen_cp]
     if miss_cp:
         chk.violation(r_cp, "cases", "injectorControlMode has no case for %s" % miss_cp, icm["file"], icm["l"])
